@@ -66,6 +66,18 @@ type Params struct {
 	Expiration  *uint64 `json:"expiration,omitempty"` // rib/register: ExpirationPeriod in ms
 }
 
+// Query is a FaceQueryFilter: a face is listed iff it satisfies every condition given.
+type Query struct {
+	FaceId  *uint64 `json:"face_id,omitempty"`
+	Scheme  *string `json:"scheme,omitempty"`
+	Uri     *string `json:"uri,omitempty"`
+	Local   *string `json:"local_uri,omitempty"`
+	Scope   *uint64 `json:"scope,omitempty"`
+	Pers    *uint64 `json:"pers,omitempty"`
+	Link    *uint64 `json:"link,omitempty"`
+	Shuffle int     `json:"shuffle,omitempty"`
+}
+
 func (p Params) String() string {
 	b, _ := json.Marshal(p)
 	return string(b)
@@ -82,6 +94,7 @@ type Op struct {
 	Garble  int    `json:"garble,omitempty"`    // >0: ControlParameters bytes corrupted (truncated to Garble-1 bytes / flipped)
 	NextHop bool   `json:"nexthop,omitempty"`   // LpPacket carries NextHopFaceId = internal face
 	Name    string `json:"name,omitempty"`      // traffic: Interest name
+	Q       *Query `json:"q,omitempty"`         // dataset faces/query: the filter
 	Shuffle int    `json:"shuffle,omitempty"`   // >0: the fields of the ControlParameters are sent in another order (the protocol fixes none)
 	GapMs   int    `json:"gap_ms,omitempty"`    // NoCache only: simulated time that passes after this step (0 = 5000)
 	// Mut != "": the encoded ControlParameters are corrupted in transit by one structure-aware mutation
@@ -144,7 +157,11 @@ func (Engine) Generate(prop string, r *kit.Rand, tier string) *kit.Scenario[Conf
 			o.Prefix = "other"
 		}
 		o.NextHop = r.Chance(0.15)
-		switch r.Weighted([]int{30, 14, 10, 5, 14, 5, 16, 5}) {
+		w := []int{30, 14, 10, 5, 14, 5, 16, 5}
+		if prop == "C06" {
+			w = []int{64, 4, 1, 0, 14, 1, 14, 2} // route registrations, unregistrations, faces going away, listings
+		}
+		switch r.Weighted(w) {
 		case 0:
 			o.Module = "rib"
 			o.Verb = kit.Pick(r, []string{"register", "register", "unregister"})
@@ -201,6 +218,9 @@ func (Engine) Generate(prop string, r *kit.Rand, tier string) *kit.Scenario[Conf
 		case 4:
 			o.Module = "faces"
 			o.Verb = kit.Pick(r, []string{"update", "update", "update", "destroy", "create"})
+			if prop == "C06" {
+				o.Verb = "destroy"
+			}
 			switch o.Verb {
 			case "update":
 				o.P.FaceId = faceID()
@@ -235,8 +255,41 @@ func (Engine) Generate(prop string, r *kit.Rand, tier string) *kit.Scenario[Conf
 		case 6:
 			o.Op = "dataset"
 			o.Module, o.Verb = "", ""
-			mv := kit.Pick(r, []string{"fib/list", "rib/list", "strategy-choice/list", "faces/list", "cs/info", "status/general"})
+			mv := kit.Pick(r, []string{"fib/list", "rib/list", "strategy-choice/list", "faces/list", "cs/info", "status/general", "faces/query"})
 			o.Module, o.Verb, _ = strings.Cut(mv, "/")
+			if mv == "faces/query" {
+				q := &Query{}
+				sp := func(s string) *string { return &s }
+				for q.FaceId == nil && q.Scheme == nil && q.Uri == nil && q.Local == nil && q.Scope == nil && q.Pers == nil && q.Link == nil {
+					if r.Chance(0.4) {
+						q.FaceId = u(uint64(kit.Pick(r, []int{1, 2, 3, 4, 5, 6, 77})))
+					}
+					if r.Chance(0.3) {
+						q.Scheme = sp(kit.Pick(r, []string{"unix", "udp4", "internal", "tcp4"}))
+					}
+					if r.Chance(0.15) {
+						k := r.Intn(nf)
+						q.Uri = sp(kit.Pick(r, []string{fmt.Sprintf("unix:///run/app%d.sock", k), fmt.Sprintf("udp4://10.0.0.%d:6363", k+2), "internal://"}))
+					}
+					if r.Chance(0.1) {
+						k := r.Intn(nf)
+						q.Local = sp(kit.Pick(r, []string{fmt.Sprintf("unix:///run/app%d.sock", k), fmt.Sprintf("udp4://10.0.0.%d:6363", k+2), "internal://"}))
+					}
+					if r.Chance(0.3) {
+						q.Scope = u(uint64(r.Intn(2)))
+					}
+					if r.Chance(0.2) {
+						q.Pers = u(uint64(r.Intn(3)))
+					}
+					if r.Chance(0.15) {
+						q.Link = u(uint64(r.Intn(3)))
+					}
+				}
+				if r.Chance(0.25) {
+					q.Shuffle = 1 + r.Intn(1<<16)
+				}
+				o.Q = q
+			}
 		case 7:
 			o.Op = "traffic"
 			o.Name = kit.Pick(r, append(append([]string{}, ribNames...), fibNames...)) + "/data"
@@ -586,7 +639,7 @@ func (e Engine) Run(t *testing.T, ctx *kit.Ctx, sc *kit.Scenario[Config, Op]) *k
 		if len(msg) > 300 {
 			msg = msg[:300]
 		}
-		r.res.Violation = &kit.Violation{Class: "C17/panic", Key: site, Step: r.step, Detail: msg}
+		r.res.Violation = &kit.Violation{Class: r.sc.Property + "/panic", Key: site, Step: r.step, Detail: msg}
 	}
 	return r.res
 }
@@ -716,6 +769,18 @@ func (r *runner) fail(class, key, format string, a ...any) bool {
 	// a C04 run corrupts command parameters in transit: only crash and allocation are judged
 	if r.sc.Property == "C04" && !strings.HasPrefix(class, "C04/") {
 		return true
+	}
+	if r.sc.Property == "C06" {
+		// the flattening property decided through the management entry path: only what the tables hold (and what
+		// the RIB and FIB datasets say they hold) is judged here; how commands are answered is C17's business
+		switch {
+		case class == "C17/tables-differ-from-model":
+			class = "C06/tables-differ-from-flattening-of-accepted-commands"
+		case class == "C17/dataset-differs-from-table" && (key == "fib/list" || key == "rib/list"):
+			class = "C06/dataset-differs-from-table"
+		default:
+			return true
+		}
 	}
 	if r.res.Violation == nil {
 		r.res.Violation = &kit.Violation{Class: class, Key: key, Step: r.step, Detail: fmt.Sprintf(format, a...)}
@@ -1401,8 +1466,19 @@ func (r *runner) doDataset(o *Op) {
 		return
 	}
 	name := mkName("/localhost/nfd/" + o.Module + "/" + o.Verb)
-	resp := r.inject(fi, name, true, false)
 	key := o.Module + "/" + o.Verb
+	if key == "faces/query" {
+		if o.Q == nil {
+			return
+		}
+		fb := (&mgmt.FaceQueryFilter{Val: &mgmt.FaceQueryFilterValue{FaceId: o.Q.FaceId, UriScheme: o.Q.Scheme, Uri: o.Q.Uri, LocalUri: o.Q.Local,
+			FaceScope: o.Q.Scope, FacePersistency: o.Q.Pers, LinkType: o.Q.Link}}).Encode().Join()
+		if o.Q.Shuffle > 0 {
+			fb = shuffleFields(fb, o.Q.Shuffle)
+		}
+		name = append(name, enc.NewBytesComponent(enc.TypeGenericNameComponent, fb))
+	}
+	resp := r.inject(fi, name, true, false)
 	if req.scope != defn.Local {
 		if resp.got {
 			r.fail("C17/dataset-served-to-nonlocal-face", key, "dataset %s served to non-local face %d", key, fi+2)
@@ -1497,6 +1573,39 @@ func (r *runner) doDataset(o *Op) {
 		sort.Strings(want)
 		if strings.Join(got, " ") != strings.Join(want, " ") {
 			r.fail("C17/dataset-differs-from-table", key, "faces/list %v, face table %v", got, want)
+		}
+	case "faces/query":
+		ds, err := mgmt.ParseFaceStatusMsg(enc.NewWireReader(content), true)
+		if err != nil {
+			r.fail("C17/dataset-undecodable", key, "%v", err)
+			return
+		}
+		got := []string{}
+		for _, f := range ds.Vals {
+			got = append(got, fmt.Sprint(f.FaceId))
+		}
+		sort.Strings(got)
+		want := []string{}
+		q := o.Q
+		for _, f := range face.FaceTable.GetAll() {
+			ok := (q.FaceId == nil || *q.FaceId == f.FaceID()) &&
+				(q.Scheme == nil || *q.Scheme == f.LocalURI().Scheme() || *q.Scheme == f.RemoteURI().Scheme()) &&
+				(q.Uri == nil || *q.Uri == f.RemoteURI().String()) &&
+				(q.Local == nil || *q.Local == f.LocalURI().String()) &&
+				(q.Scope == nil || *q.Scope == uint64(f.Scope())) &&
+				(q.Pers == nil || *q.Pers == uint64(f.Persistency())) &&
+				(q.Link == nil || *q.Link == uint64(f.LinkType()))
+			if ok {
+				want = append(want, fmt.Sprint(f.FaceID()))
+			}
+		}
+		sort.Strings(want)
+		if len(want) > 0 && len(want) < len(face.FaceTable.GetAll()) {
+			r.ctx.Probe("faces-query-selects-a-proper-subset")
+		}
+		if strings.Join(got, " ") != strings.Join(want, " ") {
+			qs, _ := json.Marshal(q)
+			r.fail("C17/dataset-differs-from-table", key, "faces/query %s lists faces %v, the faces satisfying every condition are %v", qs, got, want)
 		}
 	case "cs/info":
 		ds, err := mgmt.ParseCsInfoMsg(enc.NewWireReader(content), true)
